@@ -17,6 +17,7 @@ RULE = ('each case is a random history (straight-line program) over a register f
 ASSUMPTIONS = ['raw limbs are read through sm9_core::verif_hooks::{fr_limbs,fq_limbs} (cfg john_yu_sm9_core_verif)']
 FORMS = ['vv', 'rv', 'vr', 'rr', 'av', 'ar']
 P = {'fr': r, 'fq': q}
+HOOK_CLASSES = ('check.fr.raw', 'check.fq.raw', 'check.fq2.raw')
 NREG = {'fr': 5, 'fq': 5, 'fq2': 4}
 
 
@@ -325,6 +326,9 @@ def run(ctx, spec):
             return
         head, _, payload = an.partition(' ')
         if m[0] == 's':
+            if base == 'raw' and an.startswith('bad unknown op') and getattr(ctx, 'hooks', 'lines') == 'none':
+                ctx.count('hook-unavailable')
+                continue
             if an == m[1]:
                 if base == 'eq':
                     cls += '/' + payload
